@@ -255,11 +255,31 @@ func runC07(c *core.Ctx) {
 			return core.RefsAny(lp.TypesInfo, n, markers) || core.CallsAny(lp.TypesInfo, n, checkFns) != nil
 		}
 		// guardedCheck: 1 = correctly guarded / unconditional, -1 = check under a different condition, 0 = not a check
-		guardedCheck := func(s ast.Stmt) (int, string) {
+		var guardedCheck func(s ast.Stmt) (int, string)
+		inHelper := false
+		guardedCheck = func(s ast.Stmt) (int, string) {
 			switch x := s.(type) {
 			case *ast.ExprStmt:
 				if isEmission(x) {
 					return 1, "unconditional"
+				}
+				// a helper of the package that is nothing but the guarded check (insertTerminationCheck): one level
+				if call, ok := x.X.(*ast.CallExpr); ok && !inHelper {
+					if f := core.Callee(lp.TypesInfo, call); f != nil && f.Pkg() == lp.Types {
+						if hd := declOf(lp, f); hd != nil && len(hd.Body.List) <= 3 {
+							inHelper = true
+							verdict, why := 0, ""
+							for _, hs := range hd.Body.List {
+								if v, w := guardedCheck(hs); v < 0 || (v > 0 && verdict == 0) {
+									verdict, why = v, w+" (in "+hd.Name.Name+")"
+								}
+							}
+							inHelper = false
+							if verdict != 0 {
+								return verdict, why
+							}
+						}
+					}
 				}
 			case *ast.IfStmt:
 				hasTop := false
